@@ -149,9 +149,11 @@ def reflow_documents(ck, m):
     for d in dedupe(docs):
         if set(d['tags']) & {'setext-in-quote', 'lazy-after-indented-quote-content', 'table-on-marker-line', 'item-begins-with-blank-line'}:
             continue          # documents of a recorded finding (parser or Markdown renderer) do not mean what they say
-        if _CHARREF.search(d['src']) or _TITLE_AFTER_DEF.search(d['src']):
+        if _CHARREF.search(d['src']) or 'title-like-word-after-definition' in d['tags']:
             continue          # a first word that reads as a link title once it stands alone on the line after a definition: the
-                              # property sets aside words that mean something at the start of a line
+                              # property sets aside words that mean something at the start of a line (class decided by the specification)
+        if _TITLE_AFTER_DEF.search(d['src']):
+            ck.extra['title_like_untagged'] = ck.extra.get('title_like_untagged', 0) + 1      # cross-check of the tag against the old syntactic test
         out.append({'src': d['src'], 'words': [], 'hard': [], 'W': -1})
     return out
 
